@@ -34,6 +34,13 @@ func init() {
 	})
 }
 
+var (
+	c13PrevText []byte
+	c13PrevCopy string
+	c13PrevList []fasta.Fasta
+	c13PrevGot  []fasta.Fasta
+)
+
 func fastaName(r *rand.Rand) string {
 	n := gen.RandWordAlnum(r, 1+r.Intn(12))
 	for i := r.Intn(4); i > 0; i-- {
@@ -313,6 +320,18 @@ func runC13(w *mon.W) {
 		w.Add("lists_round_tripped", 1)
 		if d := diffFasta(list, got); d != "" {
 			w.Violation(id, fmt.Sprintf("%s: %s", how, d), rep)
+		}
+		if c13PrevText != nil {
+			w.Add("earlier_results_rechecked", 1)
+			if string(c13PrevText) != c13PrevCopy {
+				w.Violation(id, "the text returned by an earlier fasta.Build call changed after later calls", nil)
+			}
+			if d := diffFasta(c13PrevList, c13PrevGot); d != "" {
+				w.Violation(id, "the records returned by an earlier fasta.Parse call changed after later calls: "+d, nil)
+			}
+		}
+		if len(text) < 1<<20 {
+			c13PrevText, c13PrevCopy, c13PrevList, c13PrevGot = text, string(text), list, got
 		}
 		// ---- re-layouts
 		for v := 0; v < 6; v++ {
